@@ -828,7 +828,7 @@ def mc_and_scripts(ctx, names, rnd, cap, maxlen=None, maxpts=None, mc=True, genl
         elif kind == "sim":
             c = os.path.join(wd, "Sim-%s.cfg" % name)
             open(c, "w").write(mc_cfg_text(name, False, (maxlen or 4) + 2, maxpts))
-            r = vf.run_tlc("GridMC.tla", c, workers=4, timeout=1800, xmx="6g", simulate="num=%d" % (150 if name in BIG else 600), depth=(maxlen or 4) + 3)
+            r = vf.run_tlc("GridMC.tla", c, workers=4, timeout=3600, xmx="6g", simulate="num=%d" % (25 if name in BIG else 300), depth=(maxlen or 4) + 3)
         else:
             c = os.path.join(wd, "Gen-%s.cfg" % name)
             open(c, "w").write(mc_cfg_text(name, True, min(genlen, 3) if name in BIG else genlen, maxpts))     # shorter histories: one script per abstract edge is printed
